@@ -35,7 +35,226 @@ fn family(fams: &Fams, e: Enc) -> Vec<u32> {
     }
 }
 
+/// A framework of 11-48 arguments: too large to probe every subset; membership of a probed set in the
+/// intended family is decided polynomially, and the probed sets are the CNF's own models, their
+/// one-argument neighbours, the grounded and empty sets, and generated subsets.
+#[derive(Clone, Debug, PartialEq, Eq, Hash, serde::Serialize, serde::Deserialize)]
+pub struct LargeEnc {
+    pub n: usize,
+    pub att: Vec<(u16, u16)>,
+    /// an argument that receives many attackers
+    pub hub_attackers: u8,
+    pub via_iccma: bool,
+    pub dups: Vec<u16>,
+    pub probes: Vec<u64>,
+}
+
+#[derive(Clone, Debug, serde::Serialize, serde::Deserialize)]
+pub enum EncAny {
+    Small(EncCase),
+    Large(LargeEnc),
+}
+
+fn large_graph(c: &LargeEnc) -> crate::checks::metamorphic::BigGraph {
+    let n = c.n;
+    let mut att: Vec<(u16, u16)> = c.att.iter().map(|(a, b)| ((*a as usize % n) as u16, (*b as usize % n) as u16)).collect();
+    for k in 0..(c.hub_attackers as usize).min(n.saturating_sub(1)) {
+        att.push((((k + 1) % n) as u16, 0));
+    }
+    if c.via_iccma {
+        for d in &c.dups {
+            if !att.is_empty() {
+                let x = att[crate::gen::idx(*d, att.len())];
+                att.push(x);
+            }
+        }
+    }
+    crate::checks::metamorphic::BigGraph { n, att }
+}
+
 impl Encodings {
+    fn run_large(&self, c: &LargeEnc, rec: &mut Rec) -> CheckResult {
+        use crate::checks::metamorphic::Adj;
+        use crustabri::io::{Iccma23Reader, InstanceReader};
+        let g = large_graph(c);
+        let n = g.n;
+        let adj = Adj::new(&g);
+        let af: AAFramework<usize> = if c.via_iccma {
+            let mut t = format!("p af {}\n", n);
+            for (a, b) in &g.att {
+                t.push_str(&format!("{} {}\n", a + 1, b + 1));
+            }
+            Iccma23Reader::default().read(&mut t.as_bytes()).map_err(|e| Failure::new("C10/large/reader-rejected-generated-file", e.to_string()))?
+        } else {
+            let labels: Vec<usize> = (1..=n).collect();
+            let mut af = AAFramework::new_with_argument_set(crustabri::aa::ArgumentSet::new_with_labels(&labels));
+            for (a, b) in &g.att {
+                af.new_attack(&(*a as usize + 1), &(*b as usize + 1)).unwrap();
+            }
+            af
+        };
+        // size of the exp complete encoding (with multiplicities when built by the reader)
+        let exp_clauses: usize = {
+            let mut mult = vec![vec![0usize; n]; n];
+            for (a, b) in &g.att {
+                mult[*b as usize][*a as usize] += 1;
+            }
+            if !c.via_iccma {
+                mult.iter_mut().for_each(|r| r.iter_mut().for_each(|x| *x = (*x).min(1)));
+            }
+            (0..n)
+                .map(|x| {
+                    let mut p = 1usize;
+                    for b in 0..n {
+                        for _ in 0..mult[x][b] {
+                            p = p.saturating_mul(mult[b].iter().sum::<usize>().max(1));
+                        }
+                    }
+                    p
+                })
+                .fold(0usize, |a, b| a.saturating_add(b))
+        };
+        rec.class(&format!("large-n-{:02}+", (n / 10) * 10));
+        for enc in ENCODERS {
+            if enc == Enc::ExpCo && exp_clauses > EXP_LIMIT {
+                continue;
+            }
+            for with_range in [false, true] {
+                if with_range && enc == Enc::Stable {
+                    continue;
+                }
+                let sig = format!("C10/large/{}/{}", enc.name(), if with_range { "with-range" } else { "plain" });
+                let e = encoder::<usize>(enc);
+                let shared = Shared::recording(usize::MAX);
+                let mut rec_solver = satwrap::wrap(&shared, sat::default_solver());
+                guard(|| {
+                    if with_range {
+                        e.encode_constraints_and_range(&af, &mut rec_solver)
+                    } else {
+                        e.encode_constraints(&af, &mut rec_solver)
+                    }
+                })
+                .map_err(|p| Failure::new(format!("{}/encoder-panic", sig), p))?;
+                let nv = rec_solver.n_vars();
+                let clauses = shared.instances.borrow()[0].clauses.clone();
+                rec.count("programs", 1);
+                rec.eval();
+                let maxv = clauses.iter().flatten().map(|l| l.unsigned_abs()).max().unwrap_or(0);
+                if maxv > nv {
+                    return Err(Failure::new(format!("{}/variable-above-n_vars", sig), format!("max var {} n_vars {}", maxv, nv)));
+                }
+                let lits: Vec<isize> = (0..n).map(|i| isize::from(e.arg_to_lit(af.argument_set().get_argument(&(i + 1)).unwrap()))).collect();
+                let mut sorted = lits.clone();
+                sorted.sort();
+                sorted.dedup();
+                if sorted.len() != n || lits.iter().any(|l| *l <= 0) {
+                    return Err(Failure::new(format!("{}/arg-literals-collide-or-not-positive", sig), format!("{:?}", lits)));
+                }
+                let range_lit = |i: usize| -> isize { (e.first_range_var(n) + af.argument_set().get_argument(&(i + 1)).unwrap().id()) as isize };
+                if with_range && (0..n).any(|i| lits.contains(&range_lit(i)) || range_lit(i) as usize > nv) {
+                    return Err(Failure::new(format!("{}/range-variable-collides-or-above-n_vars", sig), ""));
+                }
+                let in_family = |s: &[bool]| -> bool {
+                    match base_of(enc) {
+                        "cf" => adj.conflict_free(s),
+                        "adm" => adj.admissible(s),
+                        "st" => adj.stable(s),
+                        _ => adj.complete(s),
+                    }
+                };
+                let mut probe = sat::default_solver();
+                probe.reserve(nv);
+                for cl in &clauses {
+                    probe.add_clause(cl.iter().map(|l| Literal::from(*l)).collect());
+                }
+                // probe sets
+                let mut sets: Vec<Vec<bool>> = vec![vec![false; n], adj.grounded()];
+                if let SolvingResult::Satisfiable(m) = probe.solve() {
+                    let s0: Vec<bool> = (0..n).map(|i| m.value_of(lits[i] as usize) == Some(true)).collect();
+                    if !in_family(&s0) {
+                        return Err(Failure::new(
+                            format!("{}/cnf-has-model-outside-the-{}-family", sig, base_of(enc)),
+                            format!("model projection {:?}; attacks {:?}", (0..n).filter(|i| s0[*i]).collect::<Vec<_>>(), g.att),
+                        ));
+                    }
+                    for i in 0..n.min(40) {
+                        let mut s1 = s0.clone();
+                        s1[i] = !s1[i];
+                        sets.push(s1);
+                    }
+                    sets.push(s0);
+                } else if base_of(enc) != "st" {
+                    return Err(Failure::new(format!("{}/cnf-unsatisfiable-although-the-family-is-never-empty", sig), format!("attacks {:?}", g.att)));
+                }
+                for (k, seed) in c.probes.iter().enumerate() {
+                    // subsets of varying density derived from the generated words
+                    let mut x = *seed | 1;
+                    let dens = 1 + k % 4;
+                    sets.push((0..n).map(|_| {
+                        x ^= x << 13;
+                        x ^= x >> 7;
+                        x ^= x << 17;
+                        (x % 8) < dens as u64
+                    }).collect());
+                }
+                for s in &sets {
+                    let assumptions: Vec<Literal> = (0..n).map(|i| Literal::from(if s[i] { lits[i] } else { -lits[i] })).collect();
+                    rec.count("disagreements_checked", 1);
+                    let want = in_family(s);
+                    let got = match probe.solve_under_assumptions(&assumptions) {
+                        SolvingResult::Satisfiable(m) => {
+                            let back: Vec<usize> = e.assignment_to_extension(&m, &af).iter().map(|a| *a.label() - 1).collect();
+                            let mut bs = vec![false; n];
+                            for i in &back {
+                                if bs[*i] {
+                                    return Err(Failure::new(format!("{}/assignment_to_extension-duplicate", sig), format!("{}", i)));
+                                }
+                                bs[*i] = true;
+                            }
+                            if &bs != s {
+                                return Err(Failure::new(format!("{}/assignment_to_extension-differs-from-model", sig), format!("{:?}", back)));
+                            }
+                            true
+                        }
+                        SolvingResult::Unsatisfiable => false,
+                        SolvingResult::Unknown => return Err(Failure::new(format!("{}/probe-unknown", sig), "")),
+                    };
+                    if got != want {
+                        let what = if got { format!("cnf-has-model-outside-the-{}-family", base_of(enc)) } else { format!("cnf-misses-a-{}-set", base_of(enc)) };
+                        return Err(Failure::new(
+                            format!("{}/{}", sig, what),
+                            format!("set {:?}; n {} attacks {:?}", (0..n).filter(|i| s[*i]).collect::<Vec<_>>(), n, g.att),
+                        ));
+                    }
+                    if with_range && want {
+                        let att_by = adj.attacked_by(s);
+                        let range: Vec<bool> = (0..n).map(|i| s[i] || att_by[i]).collect();
+                        let mut a2 = assumptions.clone();
+                        for i in 0..n {
+                            a2.push(Literal::from(if range[i] { range_lit(i) } else { -range_lit(i) }));
+                        }
+                        rec.count("disagreements_checked", 1);
+                        if !matches!(probe.solve_under_assumptions(&a2), SolvingResult::Satisfiable(_)) {
+                            return Err(Failure::new(format!("{}/no-model-with-range-variables-equal-to-range", sig), format!("set {:?}; attacks {:?}", (0..n).filter(|i| s[*i]).collect::<Vec<_>>(), g.att)));
+                        }
+                        if let Some(i) = (0..n).find(|i| !range[*i]) {
+                            let mut a3 = assumptions.clone();
+                            a3.push(Literal::from(range_lit(i)));
+                            rec.count("disagreements_checked", 1);
+                            if !matches!(probe.solve_under_assumptions(&a3), SolvingResult::Unsatisfiable) {
+                                return Err(Failure::new(format!("{}/range-variable-true-outside-range", sig), format!("argument {}; attacks {:?}", i, g.att)));
+                            }
+                        }
+                    }
+                }
+            }
+        }
+        if rec.nontrivial(c) {
+            rec.sample(|| json!({"large_framework_arguments": n, "attacks": g.att.len(), "via_iccma_reader": c.via_iccma, "probed_sets_per_cnf": 2 + n.min(40) + 1 + c.probes.len()}));
+        }
+        Ok(())
+    }
+
     fn run_generic<T: LabelType>(&self, af: &AAFramework<T>, labels: &[T], ecase: &EncCase, rec: &mut Rec) -> CheckResult {
         let case = &ecase.gc;
         let n = case.g.n;
@@ -245,7 +464,7 @@ impl Encodings {
 }
 
 impl Prop for Encodings {
-    type Case = EncCase;
+    type Case = EncAny;
     fn id(&self) -> &'static str {
         "C10"
     }
@@ -253,7 +472,7 @@ impl Prop for Encodings {
         "translation_validation"
     }
     fn rule(&self) -> String {
-        "Frameworks with compact ids (ArgumentSet::new_with_labels in any declaration order, ICCMA'23 reader with duplicate attack lines, Aspartix reader; <=8 arguments quick, <=10 thorough; plus all digraphs on <=3 / <=4 arguments) x {aux_var cf/adm/complete, exp cf/complete, hybrid complete, default stable} x {plain, with range} (stable: plain only, its range methods are unimplemented by design); in 40% of the cases the same encoder object first encodes another generated framework, as the solvers do for successive connected components. The clause list recorded from the encoder is the program; for EVERY subset S of the arguments, CNF + (S as assumptions on the argument literals) is satisfiable on an independent solver instance iff S belongs to the intended family by brute force; assignment_to_extension of each such model is exactly S; with range: a model with range variables = range(S) exists, and each range variable outside range(S) is refuted; literals positive, injective, disjoint from range variables, all variables <= n_vars(). programs = CNFs validated; disagreements_checked = assumption probes compared with the oracle. Non-trivial: the family has >=2 members and some argument has >=2 attackers; distinct = (graph, presentation kind, encoder, range flag).".into()
+        "Frameworks with compact ids (ArgumentSet::new_with_labels in any declaration order, ICCMA'23 reader with duplicate attack lines, Aspartix reader; <=8 arguments quick, <=10 thorough; plus all digraphs on <=3 / <=4 arguments) x {aux_var cf/adm/complete, exp cf/complete, hybrid complete, default stable} x {plain, with range} (stable: plain only, its range methods are unimplemented by design); in 40% of the cases the same encoder object first encodes another generated framework, as the solvers do for successive connected components. One case in 40 is a framework of 11-48 arguments (sparse, optionally one argument with 6-23 attackers, optionally through the ICCMA'23 reader with repeated attack lines): there the probed sets are the CNF's own model, its <=40 one-argument neighbours, the grounded and empty sets and 4-12 generated subsets, and membership in the family is decided polynomially. The clause list recorded from the encoder is the program; for EVERY subset S of the arguments, CNF + (S as assumptions on the argument literals) is satisfiable on an independent solver instance iff S belongs to the intended family by brute force; assignment_to_extension of each such model is exactly S; with range: a model with range variables = range(S) exists, and each range variable outside range(S) is refuted; literals positive, injective, disjoint from range variables, all variables <= n_vars(). programs = CNFs validated; disagreements_checked = assumption probes compared with the oracle. Non-trivial: the family has >=2 members and some argument has >=2 attackers; distinct = (graph, presentation kind, encoder, range flag).".into()
     }
     fn assumptions(&self) -> Vec<String> {
         vec![
@@ -262,26 +481,36 @@ impl Prop for Encodings {
             "encoders are only fed compact ids, as the solvers do; component extraction inside the solvers is covered indirectly by C01-C04".into(),
         ]
     }
-    fn strategy(&self, tier: Tier) -> BoxedStrategy<EncCase> {
+    fn strategy(&self, tier: Tier) -> BoxedStrategy<EncAny> {
+        use proptest::collection::vec;
         let nmax = tier.pick(8, 10);
-        (gen::graph(nmax), gen::pres_compact(nmax), prop_oneof![3 => Just(None), 2 => gen::graph(nmax).prop_map(Some)])
-            .prop_map(|(g, pres, warmup)| EncCase { gc: GraphCase { g, pres }, warmup })
-            .boxed()
+        let small = (gen::graph(nmax), gen::pres_compact(nmax), prop_oneof![3 => Just(None), 2 => gen::graph(nmax).prop_map(Some)])
+            .prop_map(|(g, pres, warmup)| EncAny::Small(EncCase { gc: GraphCase { g, pres }, warmup }));
+        let large = (11usize..=48)
+            .prop_flat_map(|n| {
+                (Just(n), vec((any::<u16>(), any::<u16>()), 0..=(2 * n)), prop_oneof![2 => Just(0u8), 1 => 6u8..24], any::<bool>(), vec(any::<u16>(), 0..=4), vec(any::<u64>(), 4..=12))
+            })
+            .prop_map(|(n, att, hub_attackers, via_iccma, dups, probes)| EncAny::Large(LargeEnc { n, att, hub_attackers, via_iccma, dups, probes }));
+        prop_oneof![40 => small, 1 => large].boxed()
     }
     fn n_cases(&self, tier: Tier) -> u32 {
         tier.pick(80_000, 1_500_000)
     }
-    fn enumerated(&self, tier: Tier) -> (Vec<EncCase>, String) {
+    fn enumerated(&self, tier: Tier) -> (Vec<EncAny>, String) {
         let max = tier.pick(3, 4);
         let mut v = vec![];
         for n in 0..=max {
             for g in gen::all_graphs(n) {
-                v.push(EncCase { gc: GraphCase { g, pres: Pres::Direct { offset: 0, order_keys: vec![] } }, warmup: None });
+                v.push(EncAny::Small(EncCase { gc: GraphCase { g, pres: Pres::Direct { offset: 0, order_keys: vec![] } }, warmup: None }));
             }
         }
         (v, format!("all digraphs on 0..={} arguments x 7 encoders x plain/range", max))
     }
-    fn run(&self, ecase: &EncCase, rec: &mut Rec) -> CheckResult {
+    fn run(&self, any: &EncAny, rec: &mut Rec) -> CheckResult {
+        let ecase = match any {
+            EncAny::Small(e) => e,
+            EncAny::Large(l) => return self.run_large(l, rec),
+        };
         let case = &ecase.gc;
         rec.class(&format!("pres-{}", case.pres.kind()));
         rec.class(&format!("n={:02}", case.g.n));
